@@ -27,8 +27,13 @@ for m in mods:
         funcs |= {it.func for it in mod.extra(repo, reg, "quick", 0) if it.func}
     except Exception as e:  # noqa: BLE001
         print(m, "extra() failed:", e)
+    seen_keys = set()
     for f in sorted(funcs):
-        for tier in ("quick", "thorough"):
+        key = f.rsplit('.', 1)[-1]
+        if key in seen_keys:
+            continue
+        seen_keys.add(key)
+        for tier in (("quick", "thorough") if os.environ.get("SELFTEST_THOROUGH") else ("quick",)):
             try:
                 w = mod.search(f, tier, 0, "")
             except Exception as e:  # noqa: BLE001
